@@ -86,9 +86,13 @@ fn find_rel_pair() {
     let n = chars.len();
     for op in all_ops() {
         for ab in 0..=n { for ae in ab..=n { for bb in 0..=n { for be in bb..=n {
-            let (a, b) = (ts(ab, ae), ts(bb, be));
+            // (whether a selection carries a handle - is known to the resource - makes no difference to any relation: one in three
+            // subjects and one in five references carries one)
+            let (mut a, mut b) = (ts(ab, ae), ts(bb, be));
+            if (ab + ae) % 3 == 0 { a.intid = Some(TextSelectionHandle::new(ab * 16 + ae)); }
+            if (bb + be) % 5 == 0 { b.intid = Some(TextSelectionHandle::new(100 + bb * 16 + be)); }
             let got = std::panic::catch_unwind(std::panic::AssertUnwindSafe(|| a.test(&op, &b, resource)));
-            let want = rel_spec(&op, &a, &b, &gap);
+            let want = rel_spec(&op, &ts(ab, ae), &ts(bb, be), &gap);
             match got {
                 Ok(g) if g == want => {}
                 Ok(g) => { println!("WITNESS {{\"clause\":\"TextSelection::test/equals_spec\",\"operator\":\"{:?}\",\"a\":[{},{}],\"b\":[{},{}],\"text\":{:?},\"got\":{},\"spec\":{}}}", op, ab, ae, bb, be, TEXT, g, want); return; }
@@ -199,6 +203,17 @@ fn find_rel_sets() {
             }
         }
     }}
+    // an empty subject set, and a subject that names a range twice
+    {
+        let empty = mk(&vec![], false);
+        let b = mk(&lists[0], false);
+        for o in names {
+            if empty.test_set(&plain(o, true), &b, resource) == empty.test_set(&plain(o, false), &b, resource) { add("for an empty set a relation and its negation have the same answer".to_string(), format!("{{}} {} {} and {{}} NOT {} {} are both {}", o, show(&lists[0]), o, show(&lists[0]), empty.test_set(&plain(o, false), &b, resource))); }
+        }
+        let twice = mk(&vec![lists[0][0].clone(), lists[0][0].clone()], false);
+        let once = mk(&lists[0], false);
+        if !twice.test_set(&plain("EQUALS", false), &once, resource) || !once.test_set(&plain("EQUALS", false), &twice, resource) { add("on sets EQUALS counts entries: a set that names a range twice does not equal the set that names it once".to_string(), format!("{{x, x}} EQUALS {{x}} is {}, {{x}} EQUALS {{x, x}} is {} for x = {}", twice.test_set(&plain("EQUALS", false), &once, resource), once.test_set(&plain("EQUALS", false), &twice, resource), show(&lists[0]))); }
+    }
     if std::env::var("VX_LIST_PROBLEMS").is_ok() { for (k, w) in &problems { println!("PROBLEM {} :: {}", k, w); } }
     for (key, what) in problems {
         if known.contains(&key) { println!("KNOWN {}", key); } else { println!("WITNESS {{\"clause\":\"laws of the relation tests on sets\",\"problem\":{:?},\"observed\":{:?}}}", key, what); return; }
@@ -322,6 +337,25 @@ fn find_related_text() {
         got.sort(); want.sort();
         if got != want { println!("WITNESS {{\"clause\":\"next_textselection/equals\",\"operator\":\"{:?}\",\"reference_set\":\"{:?}\",\"search_returns\":\"{:?}\",\"want\":\"{:?}\"}}", eq, members, got, want); return; }
     }}}
+    // a reference set that names a range more than once gets it back once (sets are not deduplicated unless sorted); an empty reference
+    // set relates to nothing, whatever the operator
+    {
+        let kn: Vec<(usize, usize)> = known.iter().step_by(9).take(3).cloned().collect();
+        for members in [vec![kn[0], kn[0]], vec![kn[0], kn[1], kn[0]], vec![kn[1], kn[0], kn[0], kn[2], kn[2]]] {
+            let mut set = TextSelectionSet::new(resource.handle());
+            for (b, e) in members.iter() { set.add(resource.textselection(&Offset::simple(*b, *e)).unwrap().inner().clone()); }
+            let mut got: Vec<(usize, usize)> = set.as_resultset(&store).related_text(eq).map(|t| (t.begin(), t.end())).collect();
+            let mut want: Vec<(usize, usize)> = members.clone(); want.sort(); want.dedup(); got.sort();
+            if got != want { println!("WITNESS {{\"clause\":\"next_textselection/equals\",\"operator\":\"{:?}\",\"reference_set\":\"{:?}\",\"search_returns\":\"{:?}\",\"want\":\"{:?} (each once)\"}}", eq, members, got, want); return; }
+        }
+        for op in all_ops() {
+            let empty = TextSelectionSet::new(resource.handle());
+            match std::panic::catch_unwind(std::panic::AssertUnwindSafe(|| empty.as_resultset(&store).related_text(op).count())) {
+                Ok(0) => {}
+                other => { println!("WITNESS {{\"clause\":\"FindTextSelectionsIter/safety\",\"operator\":\"{:?}\",\"reference_set\":\"[]\",\"got\":\"{}\",\"want\":\"nothing\"}}", op, match other { Ok(n) => format!("{} selections", n), Err(_) => "panic".to_string() }); return; }
+            }
+        }
+    }
     // the same from a store whose selections were created in every order (the lookup walks a list in creation order)
     let trio = [(2usize, 9usize), (2, 5), (2, 7)];
     for perm in [[0usize, 1, 2], [0, 2, 1], [1, 0, 2], [1, 2, 0], [2, 0, 1], [2, 1, 0]] {
@@ -425,7 +459,7 @@ fn find_reindex_ids() {
 #[test]
 fn find_id_lookups() {
     let pool: Vec<String> = {
-        let mut p: Vec<String> = vec!["".into(), "!".into(), "!A".into(), "!Ax".into(), "!A-1".into(), "!A18446744073709551616".into(), "!A4294967296".into(), "nonexistent".into(), "é!A0".into(), "!a0".into()];
+        let mut p: Vec<String> = vec!["".into(), "!".into(), "!A".into(), "!Ax".into(), "!A-1".into(), "!A18446744073709551616".into(), "!A4294967296".into(), "nonexistent".into(), "é!A0".into(), "!a0".into(), "!A+0".into(), "!A+1".into(), "!R+0".into(), "!S+1".into(), "!A 1".into(), "!A1 ".into()];
         for i in 0..4 { p.push(format!("A{}", i)); p.push(format!("R{}", i)); p.push(format!("S{}", i)); }
         for k in ["A", "R", "S", "D", "K", "T", "I", "Z"] { for n in [0usize, 1, 2, 3, 4, 5, 999] { p.push(format!("!{}{}", k, n)); } }
         p
@@ -453,7 +487,7 @@ fn find_id_lookups() {
         };
         let want = |slots: &Vec<Option<String>>, letter: &str, s: &str| -> Option<usize> {
             if let Some(rest) = s.strip_prefix(&format!("!{}", letter)) {
-                if let Ok(n) = rest.parse::<usize>() { if n < slots.len() && slots[n].is_some() { return Some(n); } }
+                if !rest.is_empty() && rest.bytes().all(|b| b.is_ascii_digit()) { if let Ok(n) = rest.parse::<usize>() { if n < slots.len() && slots[n].is_some() { return Some(n); } } }
             }
             slots.iter().position(|x| x.as_deref() == Some(s))
         };
@@ -821,6 +855,53 @@ fn find_removal_without_index() {
     println!("NO-WITNESS find_removal_without_index");
 }
 
+/// C02 on deep stores ("iterating, querying and serialising the store cannot fail or panic"; removal "succeeds whenever the item exists"):
+/// a chain of annotations on annotations a0 <- a1 <- .. <- aN is built with plain annotate() calls and one of its ends is removed.
+/// Every case runs in a child process (this test binary run again with VX_DEPTH_CASE set), because the failure mode is a stack
+/// overflow, which aborts the process: the parent reports how the child ended.
+#[test]
+fn find_removal_depth() {
+    // (name, chain length, remove the first (true) or the last (false) of the chain)
+    let cases: Vec<(&str, usize, bool)> = vec![
+        ("chain of 50, remove the first", 50, true), ("chain of 50, remove the last", 50, false),
+        ("chain of 3000, remove the first", 3000, true), ("chain of 30000, remove the last", 30000, false),
+    ];
+    if let Ok(case) = std::env::var("VX_DEPTH_CASE") {
+        let (_, n, first) = cases[case.parse::<usize>().unwrap()];
+        let mut store = AnnotationStore::default().with_resource(TextResourceBuilder::new().with_id("r").with_text("hello world")).unwrap();
+        store.annotate(AnnotationBuilder::new().with_id("a0").with_target(SelectorBuilder::textselector("r", Offset::simple(0, 5))).with_data("d", "k", "v")).unwrap();
+        for i in 1..=n { store.annotate(AnnotationBuilder::new().with_id(format!("a{}", i)).with_target(SelectorBuilder::annotationselector(format!("a{}", i - 1), None)).with_data("d", "k", "v")).unwrap(); }
+        let victim = if first { "a0".to_string() } else { format!("a{}", n) };
+        let r = std::panic::catch_unwind(std::panic::AssertUnwindSafe(|| store.remove_annotation(victim.as_str())));
+        match r { Err(_) => println!("CHILD-PANIC"), Ok(Err(e)) => println!("CHILD-ENDED error: {}", e), Ok(Ok(())) => println!("CHILD-ENDED {} annotations left", store.annotations_len() - store.annotations.iter().filter(|a| a.is_none()).count()) }
+        return;
+    }
+    let known = known_keys("find_removal_depth");
+    for (k, (name, n, first)) in cases.iter().enumerate() {
+        let mut cmd = std::process::Command::new(std::env::current_exe().unwrap());
+        // (a thread of the test harness has a 2 MiB stack, like every spawned thread by default)
+        cmd.args(["verif_hooks::replay::find_removal_depth", "--exact", "--nocapture", "--test-threads=1"]).env("VX_DEPTH_CASE", k.to_string());
+        let mut child = cmd.stdout(std::process::Stdio::piped()).stderr(std::process::Stdio::piped()).spawn().unwrap();
+        let started = std::time::Instant::now();
+        let status = loop { match child.try_wait().unwrap() { Some(st) => break Some(st), None => { if started.elapsed().as_secs() > 300 { let _ = child.kill(); break None; } std::thread::sleep(std::time::Duration::from_millis(50)); } } };
+        let out = child.wait_with_output().map(|o| format!("{}{}", String::from_utf8_lossy(&o.stdout), String::from_utf8_lossy(&o.stderr))).unwrap_or_default();
+        let want_left = if *first { 0 } else { *n };
+        let problem = match status {
+            None => Some("the removal did not end within 300 s".to_string()),
+            Some(st) if out.contains("CHILD-PANIC") => Some(format!("panic ({})", st)),
+            Some(_) if out.contains(&format!("CHILD-ENDED {} annotations left", want_left)) => None,
+            Some(_) if out.contains("CHILD-ENDED") => Some(format!("unexpected result: {}", out.lines().find(|l| l.contains("CHILD-ENDED")).unwrap_or(""))),
+            Some(st) => Some(format!("the process was aborted: {}{}", st, if out.contains("overflowed its stack") { " (stack overflow)" } else { "" })),
+        };
+        if let Some(p) = problem {
+            if known.iter().any(|x| x == name) { println!("KNOWN {}", name); continue; }
+            println!("WITNESS {{\"clause\":\"removal in a deep store\",\"case\":{:?},\"problem\":{:?}}}", name, p);
+            return;
+        }
+    }
+    println!("NO-WITNESS find_removal_depth");
+}
+
 /// the promises of the reverse lookups (C01: "where the API promises chronological or duplicate-free results, that promise holds too"):
 /// an annotation is listed once per item however often it names it, and lookups that declare themselves sorted are in chronological order
 #[test]
@@ -896,11 +977,15 @@ fn find_segmentation() {
             return;
         }
         // a range of the text: the pieces partition [b, e) and are cut at every begin and end of a known selection inside it
-        for (b, e) in [(0usize, n), (1, 9), (2, 6), (3, 4), (4, 10), (0, 3)] {
+        // (also ranges that reach beyond the text - clipped to it - and ranges that end before they begin - empty)
+        for (b0, e0) in [(0usize, n), (1, 9), (2, 6), (3, 4), (4, 10), (0, 3), (0, n + 1), (7, n + 5), (n + 2, n + 4), (5, 2), (n, n)] {
+            let (e, b) = (std::cmp::min(e0, n), std::cmp::min(b0, std::cmp::min(e0, n)));
             let mut inner: Vec<usize> = cuts.iter().copied().filter(|c| *c > b && *c < e).collect();
             inner.insert(0, b); inner.push(e);
-            let want: Vec<(usize, usize)> = inner.windows(2).map(|w| (w[0], w[1])).collect();
-            let got: Vec<(usize, usize)> = store.resource("r").unwrap().segmentation_in_range(b, e).map(|s| (s.begin(), s.end())).collect();
+            let want: Vec<(usize, usize)> = if b < e { inner.windows(2).map(|w| (w[0], w[1])).collect() } else { vec![] };
+            let got: Vec<(usize, usize)> = match std::panic::catch_unwind(std::panic::AssertUnwindSafe(|| store.resource("r").unwrap().segmentation_in_range(b0, e0).map(|s| (s.begin(), s.end())).collect::<Vec<_>>())) {
+                Ok(v) => v, Err(_) => { println!("WITNESS {{\"clause\":\"segmentation_in_range\",\"milestone_interval\":{},\"selections_mask\":{},\"range\":[{},{}],\"got\":\"panic\"}}", interval, mask, b0, e0); return; } };
+            let (b, e) = (b0, e0);
             if got != want {
                 println!("WITNESS {{\"clause\":\"segmentation_in_range\",\"milestone_interval\":{},\"selections_mask\":{},\"range\":[{},{}],\"got\":\"{:?}\",\"want\":\"{:?}\"}}", interval, mask, b, e, got, want);
                 return;
@@ -987,7 +1072,9 @@ fn find_index_walk() {
     let resource: &TextResource = store.get("r").unwrap();
     let all: Vec<TextSelection> = pool.iter().map(|(b, e)| ts(*b, *e)).collect();
     let n = TEXT.chars().count();
-    for b in 0..=n + 1 { for e in b..=n + 2 {
+    for b in 0..=n + 1 { for e in 0..=n + 2 {
+        // (a range that ends before it begins holds nothing)
+        if std::panic::catch_unwind(std::panic::AssertUnwindSafe(|| resource.range(b, e).count())).is_err() { println!("WITNESS {{\"clause\":\"TextResource::range\",\"range\":\"{}..{}\",\"got\":\"panic\"}}", b, e); return; }
         let mut want: Vec<(usize, usize)> = all.iter().filter(|t| b <= t.begin() && t.begin() < e).map(|t| (t.begin(), t.end())).collect();
         want.sort(); want.dedup();
         let got: Vec<(usize, usize)> = resource.range(b, e).map(|t| (t.begin(), t.end())).collect();
@@ -1529,6 +1616,13 @@ fn find_data_search() {
         for (name, got, want) in lookups {
             if got != **want { println!("WITNESS {{\"clause\":\"lookups across datasets equal a scan\",\"lookup\":{:?},\"got\":\"{:?}\",\"scan\":\"{:?}\"}}", name, got, want); return; }
         }
+        {
+            // an item of dataset A used as the request in dataset B names nothing there
+            let ka = st.key("A", "pos").unwrap();
+            let got = st.dataset("B").unwrap().key(&ka).map(|k| k.as_str().to_string());
+            let found: Vec<String> = st.find_data("B", &ka, DataOperator::Any).map(|d| format!("{}={}", d.key().as_str(), d.value())).collect();
+            if got.is_some() || !found.is_empty() { println!("WITNESS {{\"clause\":\"lookups across datasets equal a scan\",\"lookup\":\"dataset B asked for key pos of dataset A\",\"got\":\"key {:?}, data {:?}\",\"scan\":\"nothing: dataset B has no such key\"}}", got, found); return; }
+        }
         if st.key("A", "pos") == st.key("B", "lemma") { println!("WITNESS {{\"clause\":\"lookups across datasets equal a scan\",\"lookup\":\"key(A,pos) == key(B,lemma)\",\"got\":\"true\",\"scan\":\"two different keys\"}}"); return; }
     }
     println!("NO-WITNESS find_data_search");
@@ -1595,6 +1689,11 @@ fn find_annotate_failures() {
         ("merge_json_str whose only annotation is broken", Box::new(move |s: &mut AnnotationStore| s.merge_json_str(only_bad))),
         ("merge_json_str failing at the second annotation keeps the first", Box::new(move |s: &mut AnnotationStore| s.merge_json_str(bad_store))),
         ("dataset merge_json_str failing at the second data item keeps the first", Box::new(move |s: &mut AnnotationStore| { let h = s.dataset("d").unwrap().handle(); let ds: &mut AnnotationDataSet = s.get_mut(h).unwrap(); ds.merge_json_str(bad_set) })),
+        ("annotate_from_iter failing at the second annotation keeps the first", Box::new(|s: &mut AnnotationStore| s.annotate_from_iter(vec![
+            AnnotationBuilder::new().with_id("B1").with_target(SelectorBuilder::textselector("r", Offset::simple(0, 5))).with_existing_data("d", "D1"),
+            AnnotationBuilder::new().with_id("B2").with_target(SelectorBuilder::textselector("nope", Offset::simple(0, 5))).with_existing_data("d", "D1")]).map(|_| ()))),
+        ("insert_data for a dataset that does not exist yet, without a key", Box::new(|s: &mut AnnotationStore| s.insert_data(AnnotationDataBuilder::new().with_dataset("newset".into()).with_id("DX".into())).map(|_| ()))),
+        ("insert_data for a dataset handle that does not exist", Box::new(|s: &mut AnnotationStore| s.insert_data(AnnotationDataBuilder::new().with_dataset(AnnotationDataSetHandle::new(99).into()).with_key("k".into()).with_value("v".into())).map(|_| ()))),
         ("add_substore of a missing file", Box::new(|s: &mut AnnotationStore| s.add_substore("/nonexistent/vx_missing.store.stam.json").map(|_| ()))),
         ("merge_json_str including a missing store file", Box::new(|s: &mut AnnotationStore| s.merge_json_str(r#"{"@type":"AnnotationStore","@include":"/nonexistent/vx_missing.store.stam.json"}"#))),
     ];
